@@ -20,6 +20,7 @@ LEVEL_TEXT += (" Proved part (pyvc), relative to the verdict on component types 
 LEVEL_TEXT += (" Also proved: _handle_union_types (the statement's union rule: both unions -> every source member accepted by some target member; a union source needs all members accepted; a union target needs one; otherwise no verdict), relative to is_type_compatible on the members as an assumed pure relation and typing.get_origin / get_args as assumed pure functions; the union-into-union case goes through the proved contract of _all_types_compatible.")
 LEVEL_TEXT += (" And _compare_single_annotated_type (Annotated on one side only: its primary type decides, in the same direction) and _check_identical_or_any (the base case: an unresolvable hint, identical types, Any required, or a missing annotation on either side; type objects are opaque, == on them is equality of the views).")
 LEVEL_TEXT += (" And _handle_generic_types (Annotated on both sides -> their own comparison; on one side -> the primary type, direction kept; two generics -> origins must agree, then covariant argument by argument through the proved _compare_generic_type_args; otherwise no verdict).")
+LEVEL_TEXT += (" And the top level of is_type_compatible itself (a TypeVar source or the base case accept; otherwise the first rule with a verdict decides - TypeVar target, unions, generics - and without any verdict the answer is no), with the rules as functions of their arguments and a memo required.")
 LEVEL_NOTE = ("Bounds: atoms {int,bool,float,str,bytes,NoneType}, constructors list/set/tuple(2)/dict/Union/Optional/"
               "Annotated/Array/TypeVar, depth <=2 exhaustive for pairs (sampled at depth 3 in the thorough tier). Reading "
               "fixed here (from the statement 'every value of type A is acceptable where B is required'): Any as a source "
@@ -27,7 +28,7 @@ LEVEL_NOTE = ("Bounds: atoms {int,bool,float,str,bytes,NoneType}, constructors l
 TECHNIQUE = ("bounded contract checking against a reference subtype relation; the combinators _all_types_compatible and "
              "_compare_generic_type_args discharged by z3 relative to the verdict on component types")
 TECHNIQUE += ('; _handle_union_types discharged by z3')
-TECHNIQUE += ('; _check_identical_or_any, _compare_single_annotated_type and _handle_generic_types discharged by z3')
+TECHNIQUE += ('; _check_identical_or_any, _compare_single_annotated_type, _handle_generic_types and the top-level dispatch of is_type_compatible discharged by z3')
 EXPLANATION = LEVEL_TEXT
 RULE = ("all ordered pairs of generated annotations; distinct = distinct (A, B); non-trivial = A or B is not an atom")
 TRUSTED_BASE = ["reference subtype relation in props/C16.py", "pyvc/z3 for the two combinators",
@@ -62,7 +63,10 @@ def proof_items():
                       registry=lambda: {**{c.short: c for c in typing_c.SINGLE_ANN}, **{c.name: c for c in typing_c.SINGLE_ANN}}),
             # the dispatcher for Annotated / parametrised generics (where the direction of the comparison must be kept)
             ProofItem(typing_c.handle_generic_types, gen=typing_c.hg_gen, call=typing_c.hg_call,
-                      registry=lambda: {**{c.short: c for c in typing_c.GENERIC}, **{c.name: c for c in typing_c.GENERIC}})]
+                      registry=lambda: {**{c.short: c for c in typing_c.GENERIC}, **{c.name: c for c in typing_c.GENERIC}}),
+            # the top level: in which order the rules are consulted
+            ProofItem(typing_c.is_type_compatible_top, gen=typing_c.top_gen, call=typing_c.hg_call,
+                      registry=lambda: {**{c.short: c for c in typing_c.TOP}, **{c.name: c for c in typing_c.TOP}})]
 
 
 # ---- annotation terms: plain data so that the reference does not depend on typing introspection --------------------
